@@ -14,6 +14,10 @@ from .. import meshops as mo
 from ..topo import REF
 
 ID = 'C12'
+# sub-checks added after the seeded-change waves (DESIGN.md sections 5 and 6)
+EXTENSIONS = [
+    'sort_t=False histories; non-conforming to_meshtet results are not legal pre-states; pre-states with a spare trailing point',
+]
 LEVEL = 'model_checking'
 TECHNIQUE = "explicit-state BFS over mesh operation histories; exact transition relation on every refined(k) edge; tag saturation"
 LEVEL_TEXT = ("States are meshes reached from 23 irregular seeds (all refinable cell types) by every history of length <= D over "
